@@ -179,6 +179,23 @@ theorem normAngle_zero : normAngle (0.0 : ℝ) = 0 := by
 theorem normAngleSigned_zero : normAngleSigned (0.0 : ℝ) = 0 := by
   rw [lit_zero]; exact normAngleSigned_of_mem (by linarith [Real.pi_pos]) Real.pi_pos.le
 
+theorem wrap360_of_mem {x : ℝ} (h0 : 0 ≤ x) (h1 : x < 360) : wrap360 x = x := by
+  unfold wrap360
+  exact remEuclid_of_mem (by norm_num) h0 (by norm_num; exact h1)
+
+/-- a rounded azimuth that landed on 360 is written as 0 -/
+theorem wrap360_360 : wrap360 (360 : ℝ) = 0 := by
+  unfold wrap360 remEuclid
+  have h360 : (360.0 : ℝ) = 360 := by norm_num
+  have : trunc ((360 : ℝ) / 360.0) = 1 := by
+    rw [h360, div_self (by norm_num)]
+    unfold trunc
+    rw [if_neg (by rw [lit_zero]; norm_num)]
+    show ((⌊(1 : ℝ)⌋ : ℤ) : ℝ) = 1
+    simp
+  rw [this, h360, lit_zero]
+  norm_num
+
 /-! ### wavelength ↔ frequency -/
 
 theorem wlToFreq_def (lam : ℝ) : wlToFreq lam = twoPiC / lam := by
